@@ -343,9 +343,9 @@ class LibsvmReader(Filter[Iterable[str], Iterable[Tuple[MutableMapping,Any]]]):
 
         for line in filter(None,lines):
 
-            items  = line.strip().split(' ')
+            items  = line.split() #libsvm's own reader accepts blanks and tabs between the tokens
 
-            no_label_line = items[0] == '' or ":" in items[0]
+            no_label_line = not items or ":" in items[0]
 
             if not no_label_line:
                 labels = items[0].split(',')
